@@ -529,6 +529,19 @@ def run_case(case, rec):
         rec.violation("%s/constructor-crash/%s" % (sysname, c.etype), "system loss constructor crashed: %s" % c,
                       E=E, U=U, weights=case["weights"])
         return
+    if (case["seed"] // 3) % 3 == 0:  # (seed % 3 selects the kind of system: decoupled from it)
+        # another system with the same key names and other weight values is built in the same process before the first
+        # one is evaluated (and never used): objects do not share state
+        keep = (sp.params, sp.Wspec)
+        scale = lambda v: ({k_: scale(x_) for k_, x_ in v.items()} if isinstance(v, dict) else 3.0 * v)
+        sp.Wspec = scale(sp.Wspec)
+        try:
+            guard.call(sp.loss)
+            rec.count("systems_evaluated_after_a_later_construction")
+        except (guard.Unsupported, guard.Crash):
+            pass  # (the first construction of the same specification succeeded: reported there if it fails)
+        finally:
+            sp.params, sp.Wspec = keep
     batch = sp.batch(obs=case["obs_src"])
     try:
         total, terms = guard.call(loss.evaluate, sp.params, batch)
